@@ -25,7 +25,9 @@ def replay(spec):
             cols[s] = 100 * (n + 1) + 10 * (j + 1) + np.arange(T)
         order = (["junk", "Z", "time", "X", "Y"], ["Y", "time", "junk", "X", "Z"], ["X", "Y", "Z", "junk", "time"])[n % 3]
         frames.append(pd.DataFrame({c: cols[c] for c in order}))
-        ics.append({"X": 10.0 + n, "Z": float(n)})
+        # the same key sets as the harness: trajectories give different subsets of the species
+        full = {"X": 10.0 + n, "Y": 2.0 + n, "Z": 1.0 + n}
+        ics.append({k_: full[k_] for k_ in (("X", "Z"), ("Y",), ("Z",), ("X", "Y", "Z"))[n % 4]})
     single = spec.get("single") and N == 1
     setup = InferenceSetup(Model=mk(), exp_data=(frames[0] if single else frames), measurements=list(meas), time_column="time",
                            params_to_estimate=["k1"], prior={"k1": ["uniform", 0, 10]},
